@@ -625,7 +625,7 @@ fn run_script<K: KeyT, V: ValT>(a: &Args) {
             _ => {
                 // strip observation fields so that a recorded trace can be used as a script
                 let mut o = op.as_object().cloned().unwrap();
-                for k in ["res", "st", "cost", "led", "obs", "calls", "yield", "cyield", "hints", "tail", "kid", "vid", "vids", "ids", "objs", "unused"] {
+                for k in ["res", "st", "cost", "led", "obs", "calls", "yield", "cyield", "hints", "tail", "kid", "vid", "vids", "ids", "objs", "unused", "big", "par", "visits", "toks", "order", "dbg"] {
                     o.remove(k);
                 }
                 match w.resolve(&Value::Object(o)) {
